@@ -7,6 +7,8 @@ from concurrent.futures import ThreadPoolExecutor
 VERIF = os.path.dirname(os.path.dirname(os.path.abspath(__file__)))
 ALL = ["C%02d" % i for i in range(1, 18)]
 OLD_BASE = "e7d44c8"
+sys.path.insert(0, os.path.dirname(os.path.abspath(__file__)))
+from bases import OLD_BASES
 
 def sh(cmd, cwd=None, env=None):
     r = subprocess.run(cmd, shell=True, cwd=cwd, env=env, stdout=subprocess.PIPE, stderr=subprocess.STDOUT, text=True)
@@ -22,10 +24,11 @@ def one(sid):
         sh("git -C /repo worktree add --detach %s HEAD" % scratch)
         pf = os.path.join(d, "patch_head.diff") if os.path.exists(os.path.join(d, "patch_head.diff")) else os.path.join(d, "patch.diff")
         rc, o = sh("git apply %s" % pf, cwd=scratch)
+        meta.pop("evaluated_on", None)
         if rc != 0:
             # written against an older /repo commit whose lines were since repaired: evaluate it on that commit
             ok_base = None
-            for base in ["d7a156f", meta.get("base_commit") or OLD_BASE]:
+            for base in [b for b, _ in OLD_BASES]:
                 sh("git checkout -q --detach %s" % base, cwd=scratch)
                 rc, o = sh("git apply %s" % os.path.join(d, "patch.diff"), cwd=scratch)
                 if rc == 0:
@@ -39,6 +42,8 @@ def one(sid):
         for p in props:
             rc, o = sh("%s %s" % (os.path.join(VERIF, "check"), p), cwd=VERIF, env=env)
             keys = [json.load(open(f))["key"] for f in sorted(glob.glob(os.path.join(ev, "replay", p + "-*.json")))]
+            if meta.get("evaluated_on"):
+                keys = [k for k in keys if k not in dict(OLD_BASES).get(meta["evaluated_on"], []) or k in meta.get("base_keys_counted", [])]
             fired[p] = {"exit": rc, "violations": keys}
         meta["checks"] = fired
         meta["checked_properties"] = props
